@@ -37,6 +37,7 @@ Inductive op :=
 | OQCanProceed | OQKeepAwait | OQIsChunked | OQMaxInput (n : N) | OQBoundary | OQBodyMode
 | OQMustClose | OQCloseReason | OQStatus | OQMethod | OQUri | OQVersion | OQIsFinished
 | OQHeaders
+| OHeadersMap                                (* Flow<SendRequest>::headers_map: runs the request analysis, returns the effective headers as a map *)
 | OParseResponse (slots : N) (w : bytes)
 | OParsePartial (slots : N) (w : bytes)
 | OParseRequest (slots : N) (w : bytes).
@@ -125,6 +126,7 @@ Definition parse_op (l : list tok) : option op :=
       else if is_w w "q_version" then Some OQVersion
       else if is_w w "q_is_finished" then Some OQIsFinished
       else if is_w w "q_headers" then Some OQHeaders
+      else if is_w w "headers_map" then Some OHeadersMap
       else if is_w w "parse_response" then match args with [TN n; TH b] => Some (OParseResponse n b) | _ => None end
       else if is_w w "parse_partial" then match args with [TN n; TH b] => Some (OParsePartial n b) | _ => None end
       else if is_w w "parse_request" then match args with [TN n; TH b] => Some (OParseRequest n b) | _ => None end
@@ -424,6 +426,13 @@ Definition step (s : sstate) (o : op) : sstate * list tok :=
   | OQVersion, ObFlow TPrepare f => (s, [TW (version_name (am_version (flow_request f)))])
   | OQVersion, ObFlow TSendRequest f => (s, [TW (version_name (am_version (flow_request f)))])
   | OQHeaders, ObFlow TPrepare f => (s, obs_headers (rq_headers (am_request (flow_request f))))
+  | OHeadersMap, ObFlow TSendRequest f =>
+      (* The request analysis runs as for a write and the effective headers are collected with HeaderMap::insert, which keeps the
+         position of the first occurrence of a name and the value of the last.  In the Rust code the call remembers that it was
+         analysed; the model does not record that here, because analysis is deterministic and idempotent: every later operation
+         analyses again and obtains the same call (checked, like everything else, by the correspondence runs). *)
+      (s, obs_res (analyze_request (i_call f))
+                  (fun c => obs_headers (hm_iter (fold_left (fun m h => hm_insert m (fst h) (snd h)) (am_headers (c_req c)) []))))
   | OQIsFinished, ObCall HWithoutBody c => (s, obs_bool (negb (is_prelude (c_phase c))))
   | OQIsFinished, ObCall HWithBody c => (s, obs_bool (w_ended (c_writer c)))
   | _, _ => (s, obs_np)
